@@ -796,6 +796,10 @@ class Engine:
     def call_fn_value(self, fv, args):
         fv_u = un(fv)
         if isinstance(fv_u, (Closure, FnItem, PyObj)): return self.call_closure(fv, args)
+        if isinstance(fv_u, Enum) and not fv_u.f and args:
+            # a tuple-variant constructor used as a function value (`.map_err(CompressionError::Io)`): the operand reader
+            # printed it like a field-less variant
+            return Enum(fv_u.name, fv_u.variant, list(args))
         raise Unmodelled('call of %r' % (fv_u,))
 
     def coroutine_fn(self, co):
